@@ -654,6 +654,11 @@ impl Session {
             min(req.mtu, MAX_MTU)
         };
 
+        // A peer may claim any MTU, including one below the smallest ATT MTU there is:
+        // never go below it (the subtraction below and the window size computation
+        // rely on that)
+        let mtu = mtu.clamp(MIN_MTU, MAX_MTU);
+
         // Remove the header as we need to report back the payload MTU
         // and we'll use the payload MTU anyway for all operations
         let mtu = mtu - GATT_HEADER_SIZE as u16;
@@ -680,6 +685,13 @@ impl Session {
         RecvWindow::check_handshake_integrity(&hdr)?;
 
         let resp = HandshakeResp::from(payload.iter().copied())?;
+
+        // The segment size and window selected by the peer must be usable: a segment
+        // size below the smallest one there is cannot even hold a BTP header
+        if resp.mtu < MIN_MTU - GATT_HEADER_SIZE as u16 || resp.window_size == 0 {
+            warn!("RX handshake integrity failure: {:?}", resp);
+            return Err(ErrorCode::InvalidData.into());
+        }
 
         debug!("\n>>RCV (BTP IO) {} [{}]\n      HANDSHAKE RESP {:?}\nSelected version: {}, MTU: {}, window size: {}", address, hdr, resp, resp.version, resp.mtu, resp.window_size);
 
